@@ -265,7 +265,10 @@ def _driver(rec, case):
         tol = 10.0 ** rng.uniform(-10, -1); maxiter = int(rng.integers(1, 400))
         act = None if rng.random() < 0.5 else np.sort(rng.permutation(n)[:int(rng.integers(1, n + 1))])
         x0 = None if rng.random() < 0.5 else rng.standard_normal(n)
-        c = dict(case, which=which, n=n, tol=tol, maxiter=maxiter, mode=mode, active=None if act is None else act.tolist(), x0=x0 is not None)
+        homogeneous = rng.random() < 0.08
+        if homogeneous:          # the starting vector already solves the system: initial residual exactly zero
+            f = np.zeros(n); x0 = None if x0 is None else np.zeros(n)
+        c = dict(case, which=which, n=n, tol=tol, maxiter=maxiter, mode=mode, active=None if act is None else act.tolist(), x0=x0 is not None, homogeneous=bool(homogeneous))
         rec.case(c, nontrivial=True)
         sig = {'route': which}
         x0c = None if x0 is None else x0.copy()
@@ -276,7 +279,7 @@ def _driver(rec, case):
     else:
         desc, hs, A = _h_problem(rng)
         n = hs.numdofs
-        f = rng.standard_normal(n)
+        f = rng.standard_normal(n) if rng.random() >= 0.08 else np.zeros(n)      # sometimes the homogeneous problem (zero initial residual)
         tol = 10.0 ** rng.uniform(-9, -2); maxiter = int(rng.integers(1, 60))
         strategy = str(rng.choice(['new', 'trunc', 'func_supp', 'cell_supp'])); smoother = str(rng.choice(['gs', 'forward_gs', 'backward_gs', 'symmetric_gs', 'exact']))
         c = dict(case, which=which, space=desc, tol=tol, maxiter=maxiter, strategy=strategy, smoother=smoother)
